@@ -55,8 +55,8 @@ def ops(D):
     """(name, parameter list, body, roles {param index: role}, kind)"""
     o = []
 
-    def add(name, params, body, roles, kind="mutator"):
-        o.append(dict(name=name, params=params, body=body, roles=roles, kind=kind))
+    def add(name, params, body, roles, kind="mutator", only=None):
+        o.append(dict(name=name, params=params, body=body, roles=roles, kind=kind, only=only))
     for cls, pre in (("Arr", ""), ("SArr", "s")):
         add(pre + "ctor_default", "void* m", "new(m) %s();" % cls, {0: "ctor"}, "ctor")
         add(pre + "ctor_alloc", "void* m, A const& al", "new(m) %s(al);" % cls, {0: "ctor"}, "ctor")
@@ -108,6 +108,11 @@ def ops(D):
     add("rvalue_view_assign_constptr_view", "Sub& v, multi::subarray<Tracked, DD, Tracked const*> const& w", "std::move(v) = w;", {0: "view", 1: "view"}, "view")
     add("view_swap", "Sub& v, Sub& w", "swap(std::move(v), std::move(w));", {0: "view", 1: "view"}, "view")
     add("view_elements_assign", "Sub& v, CSub const& w", "v.elements() = w.elements();", {0: "view", 1: "view"}, "view")
+    # what the standard algorithms do with dereferenced (proxy) iterators (C03)
+    add("iter_move_assign", "It it, It jt", "*it = std::move(*jt);", {}, "view", "C03")
+    add("iter_assign_value", "It it, multi::array<Tracked, DD>& val", "*it = std::move(val);", {}, "view", "C03")
+    add("iter_swap", "It it, It jt", "std::iter_swap(it, jt);", {}, "view", "C03")
+    add("value_from_iter", "void* m, It it", "new(m) Arr(*it);", {0: "ctor"}, "ctor", "C03")
     add("array_paren_assign", "Arr& a, Arr const& b", "a() = b();", {0: "live", 1: "live"}, "view")
     add("ref_assign_ref", "Ref& r, Ref const& q", "r = q;", {0: "view", 1: "view"}, "view")
     if D >= 2:
@@ -124,7 +129,7 @@ def gen_driver(path, D, alloc="ObsAlloc<Tracked>", defines=""):
              "using A = %s;" % alloc,
              "using Arr = multi::array<Tracked, DD, A>; using SArr = multi::static_array<Tracked, DD, A>;",
              "using Ref = multi::array_ref<Tracked, DD>; using Sub = multi::subarray<Tracked, DD>; using CSub = multi::const_subarray<Tracked, DD, Tracked*>;",
-             "using Ext = multi::extensions_t<DD>;",
+             "using Ext = multi::extensions_t<DD>; using It = typename multi::array<Tracked, DD + 1>::iterator;",
              "static_assert(sizeof(multi::array<Tracked, DD>) > 0 && sizeof(Arr) > 0 && sizeof(SArr) > 0 && sizeof(Ref) > 0 && sizeof(Sub) > 0 && sizeof(CSub) > 0, \"\");"]
     for op in ops(D):
         lines.append('extern "C" void d_%s(%s) { %s }' % (op["name"], op["params"], op["body"]))
